@@ -42,6 +42,8 @@ fn query_args(g: &mut Gen, bound: usize, samples: usize) -> Vec<u64> {
     let mut v: Vec<u64> = vec![0, 1, 63, 64, 65, 511, 512, 513, 4095, 4096, 4097, b.saturating_sub(1), b, b + 1, b / 2];
     for k in [64u64, 512, 4096] { let m = (b / k) * k; v.push(m.saturating_sub(1)); v.push(m); v.push(m + 1); }
     for _ in 0..samples { v.push(g.rng.below(b + 2)); }
+    // "for all query arguments": far beyond the end and the extreme values of the argument type
+    v.extend([b.saturating_mul(2).saturating_add(7), 1u64 << 32, 1u64 << 63, (1u64 << 63) + 1, MAXU - 1, MAXU]);
     v.sort(); v.dedup();
     v
 }
@@ -220,6 +222,30 @@ pub fn c08(g: &mut Gen) {
             lines.push(format!("bv A it zero : n N{} n b l", k));
             lines.push(format!("bv A it one : N{} N{} l", k, k));
             lines.push(format!("bv A it sel {} : n b N{} l", k, k));
+        }
+        g.group(lines);
+    }
+    // the public support-level API (Transformation::word / bit, RankSupport::rank, SelectSupport::select), which the
+    // BitVector wrappers guard but which is safe and callable on its own: every argument class incl. just beyond the end
+    for (len, kind) in [(0usize, 0usize), (1, 1), (63, 2), (64, 2), (65, 2), (100, 10), (100, 2), (128, 1), (512, 2), (513, 0), (600, 9), (4096, 2), (4100, 3), (9000, 2)] {
+        let bits = make_bits(g, len, kind);
+        let words = ((len + 63) / 64) as u64;
+        let ones = bits.iter().filter(|b| **b).count() as u64;
+        let zeros = len as u64 - ones;
+        let mut lines = vec![format!("bv A from_raw {} {}", len, words_of_bits(&bits))];
+        let mut idx: Vec<u64> = vec![0, 1, words.saturating_sub(2), words.saturating_sub(1), words, words + 1, words + 7, 2 * words + 1, 1u64 << 32, 1u64 << 58, (1u64 << 58) + 1, MAXU / 64, MAXU / 64 + 1, MAXU - 1, MAXU];
+        idx.sort(); idx.dedup();
+        for t in ["I", "C"] { for i in &idx { lines.push(format!("bv A tword {} {}", t, i)); } }
+        let l = len as u64;
+        let mut pos: Vec<u64> = vec![0, 1, l.saturating_sub(1), l, l + 1, words * 64 - if words > 0 { 1 } else { 0 }, words * 64, words * 64 + 1, (l / 512 + 1) * 512, (l / 512 + 1) * 512 - 1, l * 2 + 64, 1u64 << 40, 1u64 << 63, MAXU - 63, MAXU - 1, MAXU];
+        pos.sort(); pos.dedup();
+        for i in &pos { lines.push(format!("bv A tbit I {}", i)); lines.push(format!("bv A tbit C {}", i)); lines.push(format!("bv A sup rank {}", i)); }
+        for (t, c) in [("I", ones), ("C", zeros)] {
+            let up64 = (c + 63) / 64 * 64;
+            let up4096 = (c + 4095) / 4096 * 4096;
+            let mut rk: Vec<u64> = vec![0, 1, c / 2, c.saturating_sub(1), c, c + 1, c + 2, up64.saturating_sub(1), up64, up64 + 1, c + 63, c + 64, c + 65, up4096.saturating_sub(1), up4096, up4096 + 1, 1u64 << 20, 1u64 << 63, MAXU - 1, MAXU];
+            rk.sort(); rk.dedup();
+            for r in &rk { lines.push(format!("bv A sup sel {} {}", t, r)); }
         }
         g.group(lines);
     }
